@@ -111,9 +111,11 @@ def rrsig(rng):
     tag = rng.randrange(65536)
     signer = labels(rng)
     signature = rbytes(rng, pick_len(rng, 0, 300))
+    zones = [UTC, UTC, datetime.timezone(datetime.timedelta(hours=2)), datetime.timezone(datetime.timedelta(hours=-5)),
+             datetime.timezone(datetime.timedelta(minutes=330))]
     lib = record.DnsRecordRrsig(
-        covered_lib, algorithm, label_count, ttl, datetime.datetime.fromtimestamp(times[0], UTC),
-        datetime.datetime.fromtimestamp(times[1], UTC), tag, record.DnsNameUncompressed(list(signer)), signature)
+        covered_lib, algorithm, label_count, ttl, datetime.datetime.fromtimestamp(times[0], rng.choice(zones)),
+        datetime.datetime.fromtimestamp(times[1], rng.choice(zones)), tag, record.DnsNameUncompressed(list(signer)), signature)
     wire = ref.rrsig(covered, algorithm.value.code, label_count, ttl, times[0], times[1], tag,
                      [label.encode('ascii') for label in signer], signature)
     return Pair('rrsig', lib, wire)
